@@ -14,7 +14,7 @@ import (
 // Calls
 
 func (fr *Frame) call(instr ssa.Instruction, common *ssa.CallCommon, st *State, R string) Val {
-	anns := fr.matchCallAnns(common)
+	anns := fr.matchCallAnns(instr, common)
 	if len(anns) == 0 {
 		return fr.call1(instr, common, st, R)
 	}
@@ -45,11 +45,8 @@ func (fr *Frame) call(instr ssa.Instruction, common *ssa.CallCommon, st *State, 
 	return rv
 }
 
-// matchCallAnns returns the call-site annotations of the top-level contract that apply to this call.
-func (fr *Frame) matchCallAnns(common *ssa.CallCommon) []*CallAnn {
-	if !fr.top || fr.contract == nil || len(fr.contract.Calls) == 0 {
-		return nil
-	}
+// callNames: the names under which a call site can be addressed by an `at call` annotation.
+func (fr *Frame) callNames(common *ssa.CallCommon) []string {
 	var names []string
 	if common.IsInvoke() {
 		names = append(names, fr.c.typeKey(common.Value.Type())+"."+common.Method.Name(), common.Method.Name(), fr.srcName(common.Value)+"."+common.Method.Name())
@@ -62,19 +59,48 @@ func (fr *Frame) matchCallAnns(common *ssa.CallCommon) []*CallAnn {
 	} else {
 		names = append(names, fr.srcName(common.Value))
 	}
+	return names
+}
+
+// matchCallAnns returns the call-site annotations of the top-level contract that apply to this call.
+// Ordinals (#n) count the matching call sites in source order.
+func (fr *Frame) matchCallAnns(instr ssa.Instruction, common *ssa.CallCommon) []*CallAnn {
+	if !fr.top || fr.contract == nil || len(fr.contract.Calls) == 0 {
+		return nil
+	}
+	if fr.callOrdinals == nil {
+		fr.callOrdinals = map[*CallAnn]map[ssa.Instruction]int{}
+		for _, a := range fr.contract.Calls {
+			var sites []ssa.Instruction
+			for _, b := range fr.fn.Blocks {
+				for _, ins := range b.Instrs {
+					ci, ok := ins.(ssa.CallInstruction)
+					if !ok {
+						continue
+					}
+					for _, n := range fr.callNames(ci.Common()) {
+						if n == a.Callee {
+							sites = append(sites, ins)
+							break
+						}
+					}
+				}
+			}
+			sort.SliceStable(sites, func(i, j int) bool { return sites[i].Pos() < sites[j].Pos() })
+			m := map[ssa.Instruction]int{}
+			for i, ins := range sites {
+				m[ins] = i + 1
+			}
+			fr.callOrdinals[a] = m
+		}
+	}
 	var out []*CallAnn
 	for _, a := range fr.contract.Calls {
-		hit := false
-		for _, n := range names {
-			if n == a.Callee {
-				hit = true
-			}
-		}
+		ord, hit := fr.callOrdinals[a][instr]
 		if !hit {
 			continue
 		}
-		a.seen++
-		if a.Ordinal != 0 && a.Ordinal != a.seen {
+		if a.Ordinal != 0 && a.Ordinal != ord {
 			continue
 		}
 		a.matched = true
@@ -109,6 +135,26 @@ func (fr *Frame) applyCallAnn(a *CallAnn, recv *Val, args []Val, ret *Val, pre, 
 	if ret != nil {
 		env.old = pre
 	}
+	for _, uf := range a.Unfolds {
+		// unfold P(args): at this point the definition of this one instance is available (atom ==> body)
+		call, ok := uf.E.(*ECall)
+		if !ok {
+			c.fail("unfold needs an opaque predicate application")
+		}
+		p, ok := c.W.pures[call.Fun]
+		if !ok || !p.Opaque {
+			c.fail("unfold: %s is not an opaque predicate", call.Fun)
+		}
+		atom := env.evalBool(uf.E)
+		if c.top.Reveal == nil {
+			c.top.Reveal = map[string]bool{}
+		}
+		was := c.top.Reveal[p.Name]
+		c.top.Reveal[p.Name] = true
+		full := env.evalBool(uf.E)
+		c.top.Reveal[p.Name] = was
+		c.assume(R, tImp(atom, full))
+	}
 	for i, as := range a.Asserts {
 		label := as.Label
 		if label == "" {
@@ -121,6 +167,8 @@ func (fr *Frame) applyCallAnn(a *CallAnn, recv *Val, args []Val, ret *Val, pre, 
 			}
 			c.oblige("assert", fr.oblName(nm), R, cj.t)
 		}
+		// an explicit assertion is a lemma for what follows (its conjuncts were just required)
+		c.assume(R, env.evalBool(as.E))
 	}
 	for _, as := range a.Assumes {
 		c.assume(R, env.evalBool(as.E))
@@ -707,10 +755,7 @@ func (fr *Frame) contractCall(instr ssa.Instruction, fc *FuncContract, key strin
 	}
 	old := st.clone()
 	// the callee may allocate: the allocation set grows
-	a0 := c.allocComp(st)
-	a1 := c.fresh("alloc", arrSort(SRef, SBool))
-	c.assume("true", fmt.Sprintf("(forall ((r Ref)) (! (=> (select %s r) (select %s r)) :pattern ((select %s r))))", a0, a1, a1))
-	st.heap["alloc"] = a1
+	a1 := c.growAlloc(st)
 	c.havocAlloc = a1
 	// havoc
 	fr.havocModifies(fc, env, st, R)
@@ -804,6 +849,10 @@ func (c *Ctx) splitGoal(env *Env, e Expr) []conj {
 			}
 		case *EQuant:
 			if x.Forall {
+				if len(c.known) > 0 && c.known[alphaNorm(env.evalBool(x))] {
+					parts = append(parts, part{env, nil, hyps})
+					return
+				}
 				vars := map[string]Val{}
 				for _, b := range x.Vars {
 					rt := c.resolveType(env.pkg, b.T)
@@ -840,6 +889,12 @@ func (c *Ctx) splitGoal(env *Env, e Expr) []conj {
 	rec(env, e, nil, 0)
 	var out []conj
 	for _, p := range parts {
+		if p.e == nil {
+			// identical to an unconditionally assumed fact
+			c.identities++
+			out = append(out, conj{"true", len(parts)})
+			continue
+		}
 		t := p.env.evalBool(p.e)
 		for i := len(p.hyps) - 1; i >= 0; i-- {
 			t = tImp(p.hyps[i], t)
@@ -1731,10 +1786,7 @@ func (fr *Frame) havocLoop(li *loopInfo, cur *State, R string) *State {
 			continue
 		}
 		if k == "alloc" {
-			a := c.allocComp(st)
-			na := c.fresh("alloc", arrSort(SRef, SBool))
-			c.assume("true", fmt.Sprintf("(forall ((r Ref)) (! (=> (select %s r) (select %s r)) :pattern ((select %s r))))", a, na, na))
-			st.heap["alloc"] = na
+			c.growAlloc(st)
 			continue
 		}
 		c.compSort[k] = ws.comps[k]
@@ -2058,3 +2110,16 @@ func stripPattern(f string) string {
 }
 
 var _ = constant.MakeBool
+
+// growAlloc replaces the allocation set by a fresh superset (a callee or loop body may allocate).
+// Monotonicity is stated against the previous version and, as a shortcut for the solver, against the entry version.
+func (c *Ctx) growAlloc(st *State) string {
+	a0 := c.allocComp(st)
+	a1 := c.fresh("alloc", arrSort(SRef, SBool))
+	c.assume("true", fmt.Sprintf("(forall ((r Ref)) (! (=> (select %s r) (select %s r)) :pattern ((select %s r))))", a0, a1, a1))
+	if ai, ok := c.initial["alloc"]; ok && ai != a0 {
+		c.assume("true", fmt.Sprintf("(forall ((r Ref)) (! (=> (select %s r) (select %s r)) :pattern ((select %s r))))", ai, a1, a1))
+	}
+	st.heap["alloc"] = a1
+	return a1
+}
